@@ -98,6 +98,7 @@ func runC03(c *core.Ctx) {
 	relabel(c, "C03.R8", func() { c04ClientBookkeeping(c) })
 	serverRangeDispatch(c, "C03.R9")
 	serverPostSuccessRejections(c, "C03.R10")
+	mediaTypePassedUnchanged(c, "C03.R4")
 }
 
 // describe a value stored into a Request field in terms of method fn's parameters.
